@@ -4,7 +4,9 @@
 #   fuzz : plain build with native-fuzzing coverage instrumentation (FuzzC19, in-process REST router)
 MODE=${3:-trace}
 XT=""
-case "$MODE" in *:nowasmmain) XT=" nowasmmain"; MODE=${MODE%%:*};; esac
+case "$MODE" in *:nowasmmain*) XT="$XT nowasmmain";; esac
+case "$MODE" in *:nosleephook*) XT="$XT nosleephook";; esac
+MODE=${MODE%%:*}
 if [ "$MODE" = "fuzz" ]; then
   exec go test -c -vet=off $4 -tags "verif$XT" -overlay "$2" -fuzz=Fuzz -o "$1" .
 fi
